@@ -1,4 +1,4 @@
-import J5V.Print.ReparseFile
+import J5V.Print.ReparseService
 /-!
 # The printed text of a simple file is read back as that file (core only)
 
@@ -79,6 +79,56 @@ theorem count_kids : ∀ (es : List Item), SimpleKids es → ∀ (n : Nat) (firs
     simp only [List.length_append, List.length_cons, needAll]
     omega
 end
+
+
+theorem count_rpcs : ∀ (es : List Item), SimpleRpcs es → ∀ (n : Nat) (first : Bool) (lt L : Nat) (g : Bool),
+    es.length ≤ (toksOf (elemsCmds n es first 0 lt) g L).length ∧ needAll es = 0
+  | [], _, _, _, _, _, _ => by simp [needAll]
+  | .rpc l i name inT outT opts :: r, h, n, first, lt, L, g => by
+    obtain ⟨⟨hl, ho, hname, ⟨sI, aI, fI, rI, hfI, hrI, hin, _⟩, ⟨sO, aO, fO, rO, hfO, hrO, hout, _⟩⟩, hr⟩ := h
+    subst ho hin hout
+    rw [toksOf_elems_cons n (Item.rpc l i name (rpcTyStr sI aI fI rI) (rpcTyStr sO aO fO rO) []) r first lt g L ⟨hl, rfl⟩]
+    have ih := count_rpcs r hr n false (Item.rpc l i name (rpcTyStr sI aI fI rI) (rpcTyStr sO aO fO rO) []).typeOrder
+      (rdItem (Item.rpc l i name (rpcTyStr sI aI fI rI) (rpcTyStr sO aO fO rO) [])
+        (startLine (g || gapBefore first lt (Item.rpc l i name (rpcTyStr sI aI fI rI) (rpcTyStr sO aO fO rO) [])) L)).2
+      (Item.rpc l i name (rpcTyStr sI aI fI rI) (rpcTyStr sO aO fO rO) []).gapEnder
+    simp only [itemToks, lineToks_rpc n name sI aI fI rI sO aO fO rO _ hname hfI hrI hfO hrO, rpcToks,
+      List.length_append, List.length_cons, needAll, need1] at ih ⊢
+    omega
+  | .field _ :: _, h, _, _, _, _, _ => h.1.elim
+  | .block _ _ _ _ _ _ _ :: _, h, _, _, _, _, _ => h.1.elim
+
+theorem count_service : ∀ (e : Item), SimpleService e → ∀ (n s : Nat), 1 + need1 e ≤ (itemToks n e s).length
+  | .block kw t l i name opts kids, h, n, s => by
+    obtain ⟨hl, ho, hname, hkw, _, hk⟩ := h
+    subst hkw
+    simp only [itemToks, need1]
+    split
+    · rename_i he
+      have : kids = [] := by simpa using he
+      subst this
+      rw [lineToks_empty n "service" name s isIdent_service hname]
+      simp [needAll]
+    · rw [lineToks_open n "service" name s isIdent_service hname, lineToks_close]
+      simp only [List.length_append, List.length_cons, List.length_nil]
+      have := count_rpcs kids hk (n + 1) true 0 (s + 1) false
+      omega
+  | .field _, h, _, _ => h.elim
+  | .rpc _ _ _ _ _ _, h, _, _ => h.elim
+
+theorem count_tops : ∀ (es : List Item), SimpleTops es → ∀ (n : Nat) (first : Bool) (lt L : Nat) (g : Bool),
+    es.length + needAll es ≤ (toksOf (elemsCmds n es first 0 lt) g L).length
+  | [], _, _, _, _, _, _ => by simp [needAll]
+  | e :: r, h, n, first, lt, L, g => by
+    simp only [SimpleTops] at h
+    rw [toksOf_elems_cons n e r first lt g L (SimpleTop.plain e h.1)]
+    have h1 : 1 + need1 e ≤ (itemToks n e (startLine (g || gapBefore first lt e) L)).length := by
+      rcases h.1 with hs | hs
+      · exact count_item e hs.1 n _
+      · exact count_service e hs n _
+    have h2 := count_tops r h.2 n false e.typeOrder (rdItem e (startLine (g || gapBefore first lt e) L)).2 e.gapEnder
+    simp only [List.length_append, List.length_cons, needAll]
+    omega
 
 
 /-! ## the header lines -/
@@ -232,8 +282,7 @@ structure SimpleFile (gen : String) (t : FileD) : Prop where
   distinct : t.imports.Pairwise (fun a b => strBytes a.1 ≠ strBytes b.1)
   opts : t.opts = []
   exts : t.exts = []
-  items : SimpleKids t.items
-  blocks : AllBlocks t.items
+  items : SimpleTops t.items
 
 /-- the line on which the first element can start -/
 def itemsStart (t : FileD) : Nat := if t.imports.isEmpty then 5 else 6 + t.imports.length
@@ -268,7 +317,10 @@ theorem plain_unloc : ∀ (e : Item), Plain e → e.unloc
     rcases h with h | h
     · exact ⟨h.2.1, by rw [h.2.2.1]; simp⟩
     · exact ⟨h.2.1, by rw [h.2.2.1]; simp⟩
-  | .rpc _ _ _ _ _ _, h => h.elim
+  | .rpc _ _ _ _ _ _, h => by
+    simp only [Plain] at h
+    simp only [Item.unloc]
+    exact ⟨h.1, by rw [h.2]; simp⟩
   | .block _ _ l _ _ os ks, h => by
     simp only [Plain] at h
     simp only [Item.unloc]
@@ -309,11 +361,11 @@ theorem relaid_rdFile (gen : String) (t : FileD) (h : SimpleFile gen t) : relaid
   · rw [h.opts]; exact optsOk_nil
   · rw [h.exts]; rfl
   · rw [h.exts]; simp [rdFile]
-  · exact relaid_rdKids t.items true 0 (itemsStart t) true 0 0 false (SimpleKids.plain _ h.items) (itemsStart_pos t)
+  · exact relaid_rdKids t.items true 0 (itemsStart t) true 0 0 false (SimpleTops.plain _ h.items) (itemsStart_pos t)
       (by intro hf; cases hf)
 
 theorem simple_unloc (gen : String) (t : FileD) (h : SimpleFile gen t) : t.unloc := by
   refine ⟨h.loc, by rw [h.opts]; simp, by rw [h.exts]; simp, ?_⟩
-  exact plainList_unloc _ (SimpleKids.plain _ h.items)
+  exact plainList_unloc _ (SimpleTops.plain _ h.items)
 
 end J5V.Print.Reparse
